@@ -5,7 +5,7 @@ open MdVerif.Writer
 
 def parseFmt : String → Option Fmt
   | "h5" => some .h5 | "nc" => some .nc | "dtr" => some .dtr | "xtc" => some .xtc | "trr" => some .trr
-  | "dcd" => some .dcd | "mdcrd" => some .mdcrd | "lammpstrj" => some .lammpstrj | "xyz" => some .xyz | _ => none
+  | "dcd" => some .dcd | "mdcrd" => some .mdcrd | "lammpstrj" => some .lammpstrj | "xyz" => some .xyz | "gro" => some .gro | _ => none
 
 def parseOp (s : String) : Option (Op Nat) :=
   if s == "f" then some .flush
